@@ -26,6 +26,10 @@ MUTATING = {'os.mkdir', 'os.rmdir', 'os.remove', 'os.rename', 'os.link',
             'os.symlink', 'os.utime', 'os.chmod', 'os.truncate',
             'os.chown', 'shutil.rmtree', 'shutil.move', 'open:w',
             'os.replace'}
+#: operations that can realistically fail with ENOSPC/EDQUOT (creating a file
+#: or directory entry); unlink/utime do not, and making them fail would model
+#: a broken disk (EIO), where nothing can be promised
+FAILABLE = {'open:w', 'os.mkdir', 'os.link', 'os.symlink', 'os.rename'}
 READING = {'open:r', 'os.listdir', 'os.scandir', 'os.walk', 'stat',
            'os.chdir', 'glob.glob'}
 
@@ -163,7 +167,8 @@ class Monitor:
                         self.vetoes += 1
                         raise PermissionError(
                             errno.EPERM, 'vf.fsmon veto: outside ' + root, q)
-            if self.fail_at is not None and ev.idx == self.fail_at:
+            if self.fail_at is not None and ev.idx == self.fail_at \
+                    and kind in FAILABLE:
                 self.failed_injected += 1
                 raise OSError(self.fail_errno, os.strerror(self.fail_errno),
                               ev.raw)
